@@ -63,10 +63,15 @@ def minimise(scn, still_fails, max_execs=1500, max_wall=45.0):
             cur = cand
         return ok
 
+    def spent():
+        return execs >= max_execs or time.time() - t0 > max_wall
+
     progress = True
-    while progress and execs < max_execs and time.time() - t0 <= max_wall:
+    while progress and not spent():
         progress = False
         for path, kind in list(_paths(cur)):
+            if spent():          # (checked before any candidate is built: copying a 30000-op scenario is not free)
+                break
             try:
                 val = _get(cur, path)
             except (KeyError, IndexError, TypeError):
@@ -76,7 +81,7 @@ def minimise(scn, still_fails, max_execs=1500, max_wall=45.0):
                 size = n
                 while size >= 1:
                     i = 0
-                    while i < len(_get(cur, path)):
+                    while i < len(_get(cur, path)) and not spent():
                         lst = _get(cur, path)
                         cand = copy.deepcopy(cur)
                         _set(cand, path, lst[:i] + lst[i + size:])
@@ -87,7 +92,7 @@ def minimise(scn, still_fails, max_execs=1500, max_wall=45.0):
                     size //= 2
             elif kind == 'str' and isinstance(val, str) and val:
                 for new in ('', val[:len(val) // 2], val[:-1]):
-                    if new != val:
+                    if new != val and not spent():
                         cand = copy.deepcopy(cur)
                         _set(cand, path, new)
                         if attempt(cand):
@@ -95,7 +100,7 @@ def minimise(scn, still_fails, max_execs=1500, max_wall=45.0):
                             break
             elif kind == 'int' and val:
                 for new in (0, 1):
-                    if new != val:
+                    if new != val and not spent():
                         cand = copy.deepcopy(cur)
                         _set(cand, path, new)
                         if attempt(cand):
